@@ -264,25 +264,52 @@ func runUnit(spec *Spec, o *checkOpts, openKnown map[string]bool, openList []Kno
 		if reached == 0 {
 			ur.broken = append(ur.broken, r.Entry.Func+": VACUOUS: no assertion reached on any feasible path")
 		}
-		for _, c := range r.Entry.Covers {
-			if res.Covers[c] == 0 {
-				ur.broken = append(ur.broken, r.Entry.Func+": VACUOUS: cover point "+c+" not reached")
-			}
-		}
-		for _, k := range r.Entry.Kernel {
-			found := false
-			for fnName, cnt := range res.Funcs {
-				if cnt > 0 && (fnName == k || strings.HasSuffix(fnName, "."+k) || strings.HasSuffix(fnName, ")."+k)) {
-					found = true
-					break
-				}
-			}
-			if !found {
-				ur.broken = append(ur.broken, r.Entry.Func+": kernel function "+k+" was not executed")
-			}
-		}
+		// cover points and kernel functions are checked over the union of the
+		// parameter sets of an entry (see below)
 		if r.Entry.MinPaths > 0 && res.Paths < r.Entry.MinPaths {
 			ur.broken = append(ur.broken, fmt.Sprintf("%s: only %d paths explored, expected at least %d", r.Entry.Func, res.Paths, r.Entry.MinPaths))
+		}
+	}
+
+	{
+		covers := map[string]map[string]int{}
+		funcs := map[string]map[string]int{}
+		entries := map[string]Entry{}
+		var order []string
+		for _, r := range ur.runs {
+			f := r.Entry.Func
+			if covers[f] == nil {
+				covers[f], funcs[f] = map[string]int{}, map[string]int{}
+				entries[f] = r.Entry
+				order = append(order, f)
+			}
+			for k, v := range r.Res.Covers {
+				covers[f][k] += v
+			}
+			for k, v := range r.Res.Funcs {
+				funcs[f][k] += v
+			}
+		}
+		sort.Strings(order)
+		for _, f := range order {
+			e := entries[f]
+			for _, c := range e.Covers {
+				if covers[f][c] == 0 {
+					ur.broken = append(ur.broken, f+": VACUOUS: cover point "+c+" not reached")
+				}
+			}
+			for _, k := range e.Kernel {
+				found := false
+				for fnName, cnt := range funcs[f] {
+					if cnt > 0 && (fnName == k || strings.HasSuffix(fnName, "."+k) || strings.HasSuffix(fnName, ")."+k)) {
+						found = true
+						break
+					}
+				}
+				if !found {
+					ur.broken = append(ur.broken, f+": kernel function "+k+" was not executed")
+				}
+			}
 		}
 	}
 
